@@ -175,4 +175,16 @@ PROPS = {
         "assumptions": [],
         "design_ref": "DESIGN.md §3.19, §4 C19",
     },
+    "C12": {
+        "rules": ["NAMECONF", "DELGUARD", "EXH", "TRAV@C12"],
+        "thorough": [],
+        "technique": "static analysis: identity-by-printed-name rule with triaged site table; dominance (must-facts with branch conditions) of literal tests over every delete/move in simplify; exhaustiveness/traversal of the two rewriters",
+        "level_text": "Structural clauses: every place where simplify (or a rewrite it relies on) decides expression identity through printed names is enumerated and classified; "
+        "a loop or branch is deleted only on paths dominated by a literal test of its condition/bounds (value-sensitive for branches) or emptiness of its rewritten body, and the "
+        "dead-code primitives only behind a Check_*; the two rewriters dispatch exhaustively and traverse completely. Does not decide value preservation of the normal form or of the div/mod rules (integer arithmetic).",
+        "level_note": "Trusted: triage table NAME_TRIAGE in rules/simplify.py (defect / advisory / sanitised, one reason each).",
+        "explanation": "NAMECONF enumerates str()/name() comparisons, dict keys and use_sym_id=False patterns; DELGUARD runs a must-analysis with branch facts over DoSimplify.map_s and the two dead-code primitives.",
+        "assumptions": [],
+        "design_ref": "DESIGN.md §3.6, §3.21, §4 C12",
+    },
 }
